@@ -34,6 +34,10 @@ F_SHADOW = 'C18-shadowed-chain'
 F_ROOTPKG = 'C18-root-inside-package'
 
 NAMES = ['a', 'b', 'foo', 'foobar', 'foo_bar', 'pk', 'm', 'x1']
+# module names that merely look like the special files, and private / hidden directory names
+DUNDER_LOOKALIKES = ['conf__init__', 'x__init__', '__init__x', 'test__main__', 'run__main__', '__main__x', '_main__', '_init__']
+MOD_NAMES = NAMES + DUNDER_LOOKALIKES + ['_priv']
+DIR_NAMES = NAMES + ['_impl', '_core', 'x__init__']
 LOOKALIKE = {'foo': ['foobar', 'foo_bar'], 'foobar': ['foo', 'foo_bar'], 'foo_bar': ['foo', 'foobar'],
              'a': ['b', 'x1'], 'b': ['a'], 'pk': ['m'], 'm': ['pk'], 'x1': ['a']}
 INIT, MAIN = '__init__.py', '__main__.py'
@@ -49,6 +53,18 @@ def gen_dir(rnd, depth, maxdepth, pkgish, weird_ok):
         d[MAIN] = None
     for nm in rnd.sample(NAMES, rnd.randint(0, 3)):
         d[nm + '.py'] = None
+    if rnd.random() < 0.3:
+        for nm in rnd.sample(DUNDER_LOOKALIKES + ['_priv'], rnd.choice([1, 1, 2])):
+            d[nm + '.py'] = None              # conf__init__.py, run__main__.py, ...: ordinary modules
+    if depth < maxdepth and rnd.random() < 0.25:
+        # a private sub-package, a hidden directory, a byte-code cache with stray files
+        k = rnd.choice(['_impl', '_core', '_impl', '.tox', '__pycache__'])
+        if k == '__pycache__':
+            d[k] = {'m.cpython-312.pyc': None}
+            if rnd.random() < 0.5:
+                d[k]['stray.py'] = None
+        else:
+            d[k] = gen_dir(rnd, depth + 1, maxdepth, rnd.random() < 0.85, weird_ok)
     if depth < maxdepth:
         for nm in rnd.sample(NAMES, rnd.choice([0, 1, 1, 2, 2, 3])):
             d[nm] = gen_dir(rnd, depth + 1, maxdepth, rnd.random() < 0.8, weird_ok)
@@ -260,7 +276,7 @@ def perturb(rnd, comps):
         i = rnd.randrange(len(c))
         c[i] = rnd.choice(LOOKALIKE.get(c[i], NAMES))
     elif r < 0.7:
-        c.append(rnd.choice(NAMES + ['__init__', '__main__']))
+        c.append(rnd.choice(NAMES + ['__init__', '__main__'] + DUNDER_LOOKALIKES))
     elif r < 0.85 and len(c) > 1:
         del c[rnd.randrange(len(c))]
     else:
@@ -331,7 +347,7 @@ def make_queries(rnd, t, roots, nlook, nlist, nm2n):
             extra.append(p)
     qs = []
     for c in names + extra:
-        allflags = rnd.random() < 0.3
+        allflags = rnd.random() < 0.3 or any('__init__' in x or '__main__' in x or '_main__' in x for x in c)
         for hi, hm in (FLAGS if allflags else FLAGS[:1]):
             default = (hi, hm) == (True, False)
             qs.append(dict(kind='lookup', name='.'.join(c), comps=c, hi=hi, hm=hm,
@@ -413,7 +429,7 @@ def evolve(rnd, t, roots):
         if mods and rnd.random() < 0.5:
             del d[rnd.choice(mods)]
         else:
-            d[rnd.choice(NAMES) + '.py'] = None
+            d[rnd.choice(MOD_NAMES) + '.py'] = None
         return t, 'module-file', False
     if r < 0.8 and dirs:
         p = rnd.choice(dirs)
@@ -545,6 +561,26 @@ def fixed_scenarios():
         q4.append(dict(kind='select', script=['r0', 'script.py'], sys_path=[['r0']], entries=[dict(path=p)], judge=False))
         q4.append(dict(kind='listpkg', path=p))
     out.append(scenario_from_tree(t, [['r0']], q4, 'fixed-nested'))
+    # module files whose names merely end in / contain the special names; private and hidden sub-directories
+    t = {'r0': {'test__init__.py': None, 'run__main__.py': None, '__init__x.py': None, '_main__.py': None,
+                'pkg': {INIT: None, MAIN: None, 'conf__init__.py': None, 'run__main__.py': None, 'x__init__.py': None, '__main__x.py': None,
+                        '_impl': {INIT: None, 'core.py': None, '_deep': {INIT: None, 'z.py': None}},
+                        'x__init__': {INIT: None, 'y.py': None}},
+                'pk2': {INIT: None, 'a.py': None, '.tox': {INIT: None, 'h.py': None, 'sub': {INIT: None, 'g.py': None}},
+                        '__pycache__': {'a.cpython-312.pyc': None, 'stray.py': None}, '_core': {'nopkg.py': None}}}}
+    q5 = []
+    for n in ('test__init__', 'run__main__', '__init__x', '_main__', 'pkg.conf__init__', 'pkg.run__main__', 'pkg.x__init__', 'pkg.__main__x',
+              'pkg.__main__', 'pkg._impl', 'pkg._impl.core', 'pkg._impl._deep.z', 'pkg.x__init__.y', 'pk2._core.nopkg', 'pk2.__pycache__.stray', 'pkg.conf'):
+        for hi, hm in FLAGS:
+            q5.append(dict(kind='lookup', name=n, comps=n.split('.'), hi=hi, hm=hm, real=(hi, hm) == FLAGS[0], fms=(hi, hm) == FLAGS[0]))
+    files, dirs = tree_lists(t)
+    q5 += [dict(kind='m2n', path=p, hi=hi, hm=hm) for p in files for hi, hm in FLAGS]
+    q5 += [dict(kind=k, path=p) for p in dirs for k in ('list', 'listpkg')]
+    for n in ('pkg', 'pkg._impl', 'pkg._impl._deep', 'pk2', 'pkg.conf__init__', 'pkg.x__init__', 'test__init__'):
+        q5.append(dict(kind='select', script=['r0', 'script.py'], sys_path=[['r0']], entries=[dict(name=n, comps=n.split('.'))], judge=True))
+    for p in (['r0', 'pkg'], ['r0', 'pkg', '_impl'], ['r0', 'pk2'], ['r0', 'pk2', '.tox'], ['r0', 'pkg', 'conf__init__.py']):
+        q5.append(dict(kind='select', script=['r0', 'script.py'], sys_path=[['r0']], entries=[dict(path=p)], judge=False))
+    out.append(scenario_from_tree(t, [['r0']], q5, 'fixed-lookalike-private'))
     return out
 
 
